@@ -277,6 +277,60 @@ contprog.ranges = lambda consts: dict(src=(0, 1), h1=(0, 3), h2=(0, 3), h3=(0, 3
                                       v1=(0, len(CONT) - 1), v2=(0, len(CONT) - 1), v3=(0, len(CONT) - 1), v4=(0, len(CONT) - 1))
 
 
+class PAB(param.Parameterized):
+    a = param.Integer(default=0)
+    b = param.Integer(default=0)
+
+
+def cbprog(route: int, v: int, w: int, second: bool) -> None:
+    """A callback registered with .rx.watch on an expression over p.a assigns p.b and then reads expressions over p.b (and
+    over both): the reads inside the callback, and every read afterwards, equal plain Python on the current inputs.
+    The change of a arrives by plain assignment, param.update, update as a context, trigger, or at the exit of a batch."""
+    from param.parameterized import batch_call_watchers
+    route = pick(route, 0, 4)
+    second = pickbool(second)
+    with untraced():
+        p = PAB()
+    ea = p.param.a.rx() * 2
+    eb = p.param.b.rx() + 1
+    eab = p.param.a.rx() + p.param.b.rx()
+    inside = []
+    others = []
+
+    def cb(val):
+        p.b = w
+        inside.append((val, eb.rx.value, eab.rx.value, p.a, p.b))
+    ea.rx.watch(cb)
+    if second:
+        eab.rx.watch(lambda val: others.append((val, p.a + p.b)))
+    assume(v != 0)
+    if route == 0:
+        p.a = v
+    elif route == 1:
+        p.param.update(a=v)
+    elif route == 2:
+        with p.param.update(a=v):
+            pass
+    elif route == 3:
+        with untraced():
+            pass
+        p.a = v
+        p.param.trigger('a')
+    else:
+        with batch_call_watchers(p):
+            p.a = v
+    info = {'callback_assigns': True, 'route': route, 'second_watcher': second}
+    check('C09.watch_called', len(inside) >= 1, dict(info, calls=len(inside)))
+    for val, ebv, eabv, pa, pb in inside:
+        check('C09.value', ebv == pb + 1 and eabv == pa + pb, dict(info, inside_callback=True, eb=ebv, eab=eabv, a=pa, b=pb))
+    for val, plain in others:
+        check('C09.watch_called', val == plain, dict(info, delivered=val, plain=plain))
+    check('C09.value', eb.rx.value == p.b + 1 and eab.rx.value == p.a + p.b and ea.rx.value == p.a * 2, dict(info, after=True))
+
+
+cbprog.ranges = lambda consts: dict(route=(0, 4), v=(-3, 3), w=(-3, 3))
+
+
 def table(tier):
     """The operator forms exercised cover every __op__/__rop__ defined on rx (read from the class at run time)."""
     import param.reactive as R
@@ -340,6 +394,9 @@ def shards(tier):
         for h1 in range(5):
             out.append(dict(name='D_f%d_h%d' % (form, h1), module='harness.c09', fn='whereprog', consts=dict(form=form, h1=h1),
                             budget_s=45 if q else 300))
+    # (F) a .rx.watch callback that assigns another input
+    for route in range(5):
+        out.append(dict(name='F_r%d' % route, module='harness.c09', fn='cbprog', consts=dict(route=route), budget_s=45 if q else 300))
     # (E) container-valued inputs
     for src in (0, 1):
         for v1 in range(len(CONT)):
@@ -355,6 +412,7 @@ def bounds(tier):
                 family_A='every operator form x operand kind; histories: ' + ('[update, read]' if q else 'all of length 3'),
                 family_D='expressions over the result of .rx.where (chain rooted at it; as a non-root operand): all histories of length 4 over {set branch, set condition, set other root, read e1, read e2}',
                 family_E='container-valued inputs (same-size dicts with renamed keys / changed values / reordered, lists, tuples, sets) through an rx root or a Parameter: histories of length 4 over {set input, read sorted keys, read len, read membership}',
+                family_F='a .rx.watch callback assigns another input and reads expressions over it; the triggering change arrives by set / update / update context / trigger / batch exit',
                 family_C='error/recovery through a non-root operand: histories of length 4 over {set parameter, read e1}',
                 family_B='derived expression e2 = op2(e1, Y) built at a symbolic point; all histories of length 3',
                 history_ops=['set root', 'set parameter operand', 'read e1', 'derive (first time) and read e2'],
